@@ -83,15 +83,18 @@ def base_at(S, D, key, t, d, v, path):
     return base_at(S, D, key + "." + n, f["t"], child, vn, path[1:])
 
 
+def applicable(o, v):
+    return all(bc.same_obj(at_path(v, a["path"]), sc.jv_to_py(a["c"])) for a in o["asgs"] if a["src"] == 0)
+
+
+def arg_target_differs(S, t, D, key, o, v):
+    return any(a["src"] > 0 and not bc.same_obj(at_path(v, a["path"]), base_at(S, D, key, t, D[key], v, a["path"])) for a in o["asgs"])
+
+
 def needed_opts(S, t, D, key, b, v):
+    """python twin of BuilderMachine!NeededOpts"""
     prom = [a["path"] for a in b["ctor"]["asgs"]]
-    out = []
-    for o in b["opts"]:
-        if o["asgs"][0]["path"] in prom:
-            continue
-        if any(not bc.same_obj(at_path(v, a["path"]), base_at(S, D, key, t, D[key], v, a["path"])) for a in o["asgs"]):
-            out.append(o)
-    return out
+    return [o for o in b["opts"] if o["asgs"][0]["path"] not in prom and applicable(o, v) and arg_target_differs(S, t, D, key, o, v)]
 
 
 def group_count(b, counts, o):
@@ -209,7 +212,7 @@ class Walker:
             fk, ft = bc.type_at(self.S, key, t, a["path"])
             self.arg(arg, fk, ft, at_path(v, a["path"]))
         for call in tree["calls"]:
-            hit = [o for o in b["opts"] if bc.norm_name(o["name"]) == bc.norm_name(call["name"])]
+            hit = bc.pick_named(b["opts"], call["name"])
             if not hit:
                 unknown.append(call["name"])
                 continue
@@ -221,10 +224,10 @@ class Walker:
             if len(call["args"]) != len(o["args"]):
                 self.gaps += 1
                 continue
-            io = [x for x in self.u["bind"]["go"][key]["opts"] if bc.norm_name(x["name"]) == bc.norm_name(o["name"])][0]
+            io = bc.pick_named([x for x in self.u["bind"]["go"][key]["opts"] if x is not None], o["name"])[0]
             val_arg = call["args"][io["argpos"][a["src"]]]
             if a["m"] == "direct":
-                for a2 in o["asgs"]:
+                for a2 in [x for x in o["asgs"] if x["src"] > 0]:
                     fk2, ft2 = bc.type_at(self.S, key, t, a2["path"])
                     self.arg(call["args"][io["argpos"][a2["src"]]], fk2, ft2, at_path(v, a2["path"]))
             elif a["m"] == "append":
@@ -359,9 +362,11 @@ def run(ctx):
     n_values = sum(len(v) for v in vals.values())
     n_pairs = 0
     pair_unit = {}
-    if not ctx.quick() and not ctx.replay:
-        # thorough: root values differing from the base document at TWO members, on one input format per entry
-        pairs, _ = bc.emit_values(ctx, batch.ids, mode="pairs")
+    if not ctx.replay:
+        # root values differing from the base document at TWO members, on one input format per entry: thorough for every entry,
+        # quick for the entries whose root has at most six members
+        pair_ids = [i for i in batch.ids if not ctx.quick() or len(batch.cat[i]["S"]["Root"]["fields"]) <= 6]
+        pairs, _ = bc.emit_values(ctx, pair_ids, mode="pairs")
         for eid, lst in pairs.items():
             have = {sc.dumps(v["py"]) for v in vals[eid] if v["key"] == "Root"}
             for v in lst:
@@ -416,11 +421,13 @@ def run(ctx):
     d = ctx.sub("c14-parse")
     inp, outp = os.path.join(d, "in.ndjson"), os.path.join(d, "out.ndjson")
     skipped = collections.Counter()
+    glue_problems = []
     texts = {}
     with open(inp, "w") as f:
         for cid, r in res1.items():
             if r.get("glue_err"):
-                raise core.Inconclusive("converter driver problem on %s: %s" % (cid, r["glue_err"]))
+                glue_problems.append("%s: %s" % (cid, r["glue_err"]))
+                continue
             if r.get("panic"):
                 # the generated converter itself crashes on this value: no text at all
                 u_, v_ = index[cid]
@@ -513,18 +520,20 @@ def run(ctx):
         records.append(("conv", cid, violated))
         per["rebuilds"] += 1
         per["rebuilds:fields-differing-from-default"] += len(differs(t, Dr[key], vgo))
+        no_object = None
         if "NoObject" in violated:
-            why = "panic" if r2.get("panic") else "build-error"
-            ctx.fail("C14/go/rebuilds/%s@%s" % (why, entry["name"]),
-                     "executing the converter output for %s does not build an object: %s" % (sc.dumps(vgo), r2.get("panic") or r2.get("err")),
-                     dict(base, stage2=r2))
+            # reported after the call chains were looked at: when a needed option is missing, THAT is the finding (the object
+            # then keeps a default that does not validate); a build error with every needed option present is its own class
+            no_object = ("C14/go/rebuilds/%s@%s" % ("panic" if r2.get("panic") else "build-error", entry["name"]),
+                         "executing the converter output for %s does not build an object: %s" % (sc.dumps(vgo), r2.get("panic") or r2.get("err")),
+                         dict(base, stage2=r2))
         elif "Rebuild" in violated:
             n = diff[0]
             cls = leaf_class(S, t, vgo, rebuilt, n)
             if what_added(cls) and has_unset_ctor(S, entry["B"], key, t, vgo):
                 cls += "/unset-constructor-argument"     # a constructor always sets what it takes: an unset optional member cannot be kept unset
             owners = [o for o in entry["B"][key]["opts"] if any(a["path"][0] == n for a in o["asgs"])]
-            if owners and all(len(o["asgs"]) > 1 for o in owners):
+            if owners and all(len([a_ for a_ in o["asgs"] if a_["src"] > 0]) > 1 for o in owners):
                 cls += "/via-multi-argument-option"
             ctx.fail("C14/go/rebuilds/%s" % cls,
                      "value %s: the rebuilt object %s differs at field %s (default %s)" % (sc.dumps(vgo), sc.dumps(rebuilt), n, sc.dumps(Dr[key])),
@@ -535,6 +544,7 @@ def run(ctx):
         w = Walker(entry, u)
         w.node(trees[cid], key, t, vgo)
         gaps += w.gaps
+        fails_before = len(ctx.failures)
         for nkey, nt, nv, counts, unknown, flavour in w.nodes:
             b = entry["B"][nkey]
             Dn, ndi = Dr, di
@@ -586,7 +596,7 @@ def run(ctx):
                 rel = "missing" if c < wnt else "repeated"
                 cls = "%s:%s@%s/%s:%s" % (rel, a["m"], "field" if len(a["path"]) == 1 else "nested-path", arg_kind(S, ft),
                                           value_feature(at_path(nv, a["path"])))
-                if len(o["asgs"]) > 1:
+                if len([a_ for a_ in o["asgs"] if a_["src"] > 0]) > 1:
                     absent = [a2["path"][-1] for a2 in o["asgs"] if bc.canon(at_path(nv, a2["path"])) is None]
                     cls = "%s:multi-argument-option%s" % (rel, ":some-target-absent" if absent else "")
                 ctx.fail("C14/go/exactly-once/%s" % cls,
@@ -596,7 +606,11 @@ def run(ctx):
                 ctx.fail("C14/go/exactly-once/constructor-arguments",
                          "value %s of %s: the constructor is called with %d argument(s), the builder takes %d" % (sc.dumps(nv), nkey, counts["#ctor"], len(b["ctor"]["args"])),
                          dict(base, chain_of=nkey, counts=dict(counts)))
+        if no_object is not None and len(ctx.failures) == fails_before:
+            ctx.fail(*no_object)
     tf.close()
+    if glue_problems:
+        bc.soft_inconclusive(ctx, "converter driver problems: %s" % glue_problems[:3])
     if not records:
         raise core.Inconclusive("no converter output reached stage 2")
     # ---- TLC recomputes both clauses
@@ -616,7 +630,7 @@ def run(ctx):
     for i, (kind, cid, violated) in enumerate(records):
         tv = tlc_viol.get(i, set())
         if tv != violated:
-            raise core.Inconclusive("TLC and the python join disagree on %s record of %s: TLC %s, python %s" % (kind, cid, sorted(tv), sorted(violated)))
+            bc.soft_inconclusive(ctx, "TLC and the python join disagree on %s record of %s: TLC %s, python %s" % (kind, cid, sorted(tv), sorted(violated)))
         if not tv:
             agree += 1
     if not replay:
@@ -625,10 +639,13 @@ def run(ctx):
                 "exactly-once:index", "exactly-once:nested-path", "exactly-once:flavour-chains", "exactly-once:branch-append"]
         vac = [k for k in need if per[k] == 0]
         if vac:
-            raise core.Inconclusive("vacuous clauses (never exercised): %s" % vac)
+            bc.soft_inconclusive(ctx, "vacuous clauses (never exercised): %s" % vac)
     binding = None
     if not replay:
+      try:
         binding = selftest(ctx, records, tpath=None, entries=entries, defaults=defaults, tr_dir=tr["dir"])
+      except core.Inconclusive as e:
+        bc.soft_inconclusive(ctx, str(e))
     status = collections.Counter(u["status"] for u in batch.units.values())
     not_exec = collections.Counter()
     for u in batch.units.values():
